@@ -12,11 +12,11 @@ PROP = 'C08'
 
 
 def Cases(tier):
-  n = int(os.environ.get('VERIF_N', 0)) or (70 if tier == 'quick' else 900)
-  per = 7 if tier == 'quick' else 125
+  n = int(os.environ.get('VERIF_N', 0)) or (70 if tier == 'quick' else 300)
+  per = 7 if tier == 'quick' else 30
   rng = common.Rng(PROP)
   cases = []
-  n_fam = (2 if tier == 'quick' else 25) * len(families.C08_FAMILIES)
+  n_fam = (2 if tier == 'quick' else 5) * len(families.C08_FAMILIES)
   for i in range(n + n_fam):
     if i >= n:
       # directed families: injection x combines x shared names, key-less
@@ -44,13 +44,13 @@ def Cases(tier):
                   'meta': {'features': feats + ['base']}})
     plans = [a for a in itertools.product(meta.PLANS, repeat=len(inter))
              if any(x != 'none' for x in a)]
-    if len(plans) > (per if i < n else 4 * per):
+    if len(plans) > (per if i < n else (4 * per if tier == 'quick' else 2 * per)):
       # every single-predicate plan first, then a random sample of the rest
       single = [a for a in plans if sum(x != 'none' for x in a) == 1]
       rest = [a for a in plans if a not in single]
       rng.shuffle(single)
       rng.shuffle(rest)
-      k_ = per if i < n else 4 * per
+      k_ = per if i < n else (4 * per if tier == 'quick' else 2 * per)
       plans = (single + rest)[:k_] if tier != 'quick' else (
           single[:(5 if i < n else 15)] + rest[:k_ - (5 if i < n else 15)])
     for k, a in enumerate(plans):
